@@ -118,8 +118,14 @@ def gen_kwargs(r, allow_prep):
 
 def gen_op(r):
     t = ["prep", "fit", "fit", "fit", "fit0", "fit0", "edit", "rate", "emod",
-         "bad", "pedit", "nudge", "pattr", "readonly", "prepd", "reorder"][
-        int(r.integers(16))]
+         "bad", "pedit", "nudge", "pattr", "readonly", "prepd", "reorder",
+         "pown"][int(r.integers(17))]
+    if t == "pown":
+        # the caller keeps ONE Parameters object of their own for this
+        # curve, edits it in place and hands it over again and again
+        return ("pown", ["E", "contact_point", "baseline"][
+            int(r.integers(3))], float(r.uniform(.5, 2)),
+            bool(r.random() < .3), bool(r.integers(2)))
     if t == "reorder":
         # re-assign an equal dictionary with another key order
         return ("reorder", ["method_kws", "preprocessing_options"][
@@ -178,6 +184,10 @@ def materialize(idnt, kw):
             p = lmfit.Parameters()
         kw["params_initial"] = p
     return kw
+
+
+#: the caller's own Parameters object of the curve under observation
+OWN = {}
 
 
 def apply_op(idnt, op):
@@ -268,6 +278,27 @@ def apply_op(idnt, op):
             else:
                 par.vary = not par.vary
             if via_fit:
+                idnt.fit_model(params_initial=p)
+            else:
+                idnt.fit_properties["params_initial"] = p
+                idnt.fit_model()
+        elif op[0] == "pown":
+            p = OWN.get(id(idnt))
+            if p is None or set(p) != set(idnt.get_initial_fit_parameters()):
+                p = copy.deepcopy(idnt.get_initial_fit_parameters())
+                OWN.clear()
+                OWN[id(idnt)] = p
+                OWN["keep"] = idnt
+            name = op[1]
+            if name == "contact_point":
+                p[name].value = p[name].value + (op[2] - 1) * 1e-7
+            elif name == "baseline":
+                p[name].value = p[name].value + (op[2] - 1) * 1e-11
+            else:
+                p[name].value = p[name].value * op[2]
+            if op[3]:
+                p["baseline"].vary = not p["baseline"].vary
+            if op[4]:
                 idnt.fit_model(params_initial=p)
             else:
                 idnt.fit_properties["params_initial"] = p
@@ -405,6 +436,44 @@ def stored_settings(idnt):
     from nanite.fit import FP_DEFAULT
     fp = idnt.fit_properties
     return {k: copy.deepcopy(fp[k]) for k in FP_DEFAULT if k in fp}
+
+
+def not_decidable(factory, idnt, o, hist):
+    """A mismatch with the fresh copy was seen.  Before it is reported:
+    (1) six more fresh copies with the same stored settings - if fresh copies
+    with one and the same hash disagree AMONG THEMSELVES, the optimisation is
+    not reproducible for identical inputs (ill-posed fit: lmfit amplifies
+    last-bit differences of numpy's SIMD kernels, which depend on where
+    temporaries happen to be allocated) and "identical to a fresh copy" cannot
+    be decided for this state; (2) the same history is applied to three more
+    new objects - a dependence on history reproduces every time, a flip of
+    the optimiser does not.  -> None (report) or the name of the event"""
+    if o.get("hash") != idnt.fit_properties.get("hash"):
+        return None
+    fresh = [o] + [oracle(factory, idnt) for _ in range(6)]
+    for f in fresh[1:]:
+        if isinstance(f, str) or f.get("hash") != o.get("hash"):
+            return None
+        if same(fresh[0], f) is not None:
+            return ("fresh copies with the same hash disagree among "
+                    "themselves (fit not reproducible for identical inputs; "
+                    "no verdict on that state)")
+    keep = dict(OWN)
+    try:
+        for _ in range(3):
+            j = factory()
+            for op, _res in hist:
+                apply_op(j, op)
+            a = snapshot(j)
+            oj = oracle(factory, j)
+            if a is None or isinstance(oj, str) or same(a, oj) is None:
+                return ("mismatch with the fresh copy not reproducible when "
+                        "the same history is applied to a new object (no "
+                        "verdict on that state)")
+    finally:
+        OWN.clear()
+        OWN.update(keep)
+    return None
 
 
 def oracle(factory, idnt):
@@ -582,6 +651,13 @@ def run_history(rec, tap, rng, cid):
             rec.event("comparisons equal to 1e-6 but not bitwise (library "
                       "non-determinism)")
         if d is not None:
+            n1 = dict(tap.counts)
+            why = not_decidable(factory, idnt, o, hist)
+            tap.counts.clear()
+            tap.counts.update(n1)
+            if why is not None:
+                rec.event(why)
+                continue
             rec.violation(classify(d, hist, idnt),
                           "after %d operations '%s' differs from a fresh copy "
                           "with the stored settings applied once"
